@@ -18,4 +18,24 @@ fi
 cd "$ROOT/harness"
 cp /repo/Cargo.lock Cargo.lock 2>/dev/null || true
 CARGO_NET_OFFLINE=true timeout 1200 cargo build --offline >"$ROOT/harness/build.log" 2>&1 || { grep -E "^error" -A12 "$ROOT/harness/build.log" | head -60; exit 1; }
+# warm the per-property proof-output cache (Print Assumptions of every property file), in parallel
+cd "$ROOT"
+python3 - <<'PYEOF'
+import os, subprocess, concurrent.futures as cf
+root = os.getcwd()
+coq = os.path.join(root, "coq")
+os.makedirs(os.path.join(root, "work", "proofcache"), exist_ok=True)
+def one(pid):
+    vo = os.path.join(coq, "theories", "Props", pid + ".vo")
+    pf = os.path.join(coq, "theories", "Props", pid + ".v")
+    cache = os.path.join(root, "work", "proofcache", pid + ".out")
+    if os.path.exists(cache) and os.path.getmtime(cache) >= os.path.getmtime(vo) and os.path.getmtime(cache) >= os.path.getmtime(pf):
+        return
+    r = subprocess.run("timeout 2400 coqc -Q theories MQ theories/Props/%s.v" % pid, shell=True, cwd=coq, capture_output=True, text=True)
+    if r.returncode == 0:
+        open(cache, "w").write(r.stdout)
+pids = sorted(f[:-2] for f in os.listdir(os.path.join(coq, "theories", "Props")) if f.endswith(".v"))
+with cf.ThreadPoolExecutor(max_workers=12) as ex:
+    list(ex.map(one, pids))
+PYEOF
 echo build-ok
